@@ -17,6 +17,16 @@ pub fn bytes_at(addr: usize, n: usize) -> Vec<u8> {
     crate::maps::read_vec(addr, n).unwrap_or_default()
 }
 
+/// up to 32 bytes at `addr` (fewer when the mapping ends earlier)
+pub fn img(addr: usize) -> Vec<u8> {
+    for n in [32usize, 24, 16, 8] {
+        if let Some(v) = crate::maps::read_vec(addr, n) {
+            return v;
+        }
+    }
+    Vec::new()
+}
+
 pub fn page_floor(a: usize) -> usize {
     a & !(PAGE - 1)
 }
@@ -79,6 +89,26 @@ impl SynthFake {
         arena.protect_all(RX);
         Some(SynthFake { arena, addr, id })
     }
+}
+
+/// lowest address at which the kernel honours a (non-fixed) mmap hint, probed
+pub fn hint_floor() -> usize {
+    let mut a = PAGE;
+    while a <= 0x40_0000 {
+        if crate::maps::is_free(a, PAGE) {
+            let r = unsafe { ip::sys_mmap(a, PAGE, libc::PROT_NONE, libc::MAP_PRIVATE | libc::MAP_ANONYMOUS, -1, 0) };
+            if r != -1 {
+                unsafe {
+                    ip::sys_munmap(r as usize, PAGE);
+                }
+                if r as usize == a {
+                    return a;
+                }
+            }
+        }
+        a += PAGE;
+    }
+    0x40_0000
 }
 
 pub fn sig_name(s: i32) -> &'static str {
